@@ -125,6 +125,7 @@ type nodeOpts struct {
 	proto     portalwire.ProtocolId
 	restrict  string            // netutil.ParseNetlist form; empty = no allow-list
 	key       *ecdsa.PrivateKey // optional: the node's identity (else drawn from the PRNG)
+	initCheck bool              // keep the table's init check (the production default): lookups wait for the first refresh
 }
 
 func startNode(mn *memNet, r *rand.Rand, o nodeOpts) *realNode {
@@ -171,7 +172,7 @@ func startNode(mn *memNet, r *rand.Rand, o nodeOpts) *realNode {
 		o.proto = portalwire.History
 	}
 	p, err := portalwire.NewPortalProtocol(conf, o.proto, key, conn, ln, disc, utp, o.store, queue, vc,
-		portalwire.WithDisableTableInitCheckOption(true))
+		portalwire.WithDisableTableInitCheckOption(!o.initCheck))
 	if err != nil {
 		panic(err)
 	}
